@@ -48,7 +48,7 @@ class C01(core.Property):
                    "exactly_one_distinct", "enabled_decreases", "drain_quiescent", "quiescence_reachable",
                    "lax_step", "lax_run", "at_most_one_reply_all", "reply_names_a_request_all", "C01_safety",
                    "C01_core_partial", "C01_live_partial", "C01_partial", "C01_refuted_thread_awaitable",
-                   "C01_refuted", "C01_nonvacuous", "C01_reference_agrees"]
+                   "C01_refuted", "C01_nonvacuous", "C01_reference_agrees", "C01_model_outside_domain"]
     coq_targets = ["Props/C01.vo", "Extract/ExtractC01.vo"]
     rule = ("a scenario is 1-4 requests over kind x outcome (+ unknown method, undecodable / missing params, "
             "commands, shutdown/exit, cancels, notifications, garbage, responses) under a random enabled "
@@ -60,14 +60,17 @@ class C01(core.Property):
                     "pool and writers, frame decoder) and harness/c01.py (generators, canonicalisation)",
                     "modelled not verified: asyncio task/cancel semantics, concurrent.futures.Future, dict order, "
                     "json.dumps failing on an unserialisable value, cattrs structuring as an oracle (POk/PBad/PFail)"]
-    assumptions = ["request ids are JSON ints or strings, pairwise distinct among incoming requests (clause 1)",
+    assumptions = ["handler_codes_int32: a request handler that raises a JsonRpcException uses an int32 code; outside, the "
+                   "real endpoint sends no reply (C07 finding wide-own-code) and the model is not claimed faithful - the "
+                   "generators stay inside (boundary codes 2^31-1 and -2^31 included)",
+                   "request ids are JSON ints or strings, pairwise distinct among incoming requests (clause 1)",
                    "disjoint_directions: a peer response never names an in-flight incoming request (row 21)",
                    "one writer.write call is atomic; a pool work item starts and finishes as two atomic events"]
 
     # ---------------------------------------------------------------- scenarios
     def _behav(self, rng, kind=None, request=True):
         k = kind or rng.choice(["sync", "async", "async", "thread", "thread"])
-        o = rng.choice([["ret", rng.choice([0, 1, 7, -3])], ["ret", 5], ["raise"], ["rpc", rng.choice([-32001, -32602, 0, 5, -32601])],
+        o = rng.choice([["ret", rng.choice([0, 1, 7, -3])], ["ret", 5], ["raise"], ["rpc", rng.choice([-32001, -32602, 0, 5, -32601, 2 ** 31 - 1, -2 ** 31])],
                         ["unser"]])
         return B(k, o, n=rng.choice([0, 1, 1, 2, 3]), early=rng.random() < 0.25,
                  r=rng.choice(["prop", "prop", "swallow"]))
